@@ -78,7 +78,7 @@ struct VecType {
   uint64_t limit = 0;         // max_size()
   bool limitThrows = true;    // exceeding the limit throws (false: UncheckedGrowingPolicy -> never generated)
   size_t objSize = 0, objAlign = 0, elemSize = 0;
-  bool elemTriv = false, elemTR = false, elemHooks = false, elemNoexceptMove = true;
+  bool elemTriv = false, elemTR = false, elemHooks = false, elemNoexceptMove = true, elemArith = false;
   bool claimsTR = false;      // the container declares itself trivially relocatable
   bool sizeSigned = false;
   int allocDomain = 0;        // 0: none (fixed)
